@@ -400,7 +400,7 @@ fn histories(u: &mut Universe, depth: usize) {
 
 /// large-declaration boundary probes (thorough tier)
 fn boundary(out: &mut Vec<Decl>) {
-    for n in [127usize, 128, 129] {
+    for n in [127usize, 128, 129, 130] {
         let name = format!("B{n}");
         // n chunk-0 fields, the last one made optional: position byte at the i8 edge
         let mut fields: Vec<FieldDescr> = (0..n).map(|i| fld(&format!("f{i}"), Ty::U8)).collect();
